@@ -3,6 +3,7 @@ package main
 import (
 	"fmt"
 	"go/types"
+	"strings"
 
 	"golang.org/x/tools/go/ssa"
 )
@@ -341,7 +342,7 @@ func runC16(c *Ctx) {
 	ruleConnHandlerGuardAs(c, "C16.5")
 
 	// ---- C16.6
-	c.Rule("C16.6", "data pipe: handleConnectionBindRequest starts two goroutines, one io.Copy(peerConn, clientConn) and one io.Copy(clientConn, peerConn), with peerConn the result of GetTCPConnection and clientConn = stunConn.Conn() of req.Conn; after the wait on the completion context both connections are Close()d", 2)
+	c.Rule("C16.6", "data pipe: handleConnectionBindRequest starts two goroutines, one io.Copy(peerConn, clientConn) and one io.Copy(clientConn, peerConn), with peerConn the result of GetTCPConnection and clientConn = stunConn.Conn() of req.Conn; every exit of either goroutine calls the completion context's cancel function; after the wait on the completion context both connections are Close()d", 3)
 	{
 		h := w.Func("server", "", "handleConnectionBindRequest")
 		tcpGet := w.Func("allocation", "Manager", "GetTCPConnection")
@@ -423,6 +424,58 @@ func runC16(c *Ctx) {
 			c.OK("C16.6", fname(h), "two directions", w.pos(h.Pos()), "io.Copy(peer, client) and io.Copy(client, peer), each in its own goroutine")
 		} else {
 			c.Bad("C16.6", fname(h), "two directions", w.pos(h.Pos()), fmt.Sprintf("the data connection is not piped both ways between the bound peer connection and the client connection: copies=%v in goroutines=%d", copies, inGo))
+		}
+		// every way a copy goroutine ends signals completion: the handler waits for it before
+		// it closes the other side (io.Copy returns nil on an orderly EOF, so a signal on the
+		// error edge only leaves the relay half-open for ever)
+		c.Anchor("C16.6", "completion signalled")
+		{
+			isCancel := func(in ssa.Instruction) bool {
+				ci, ok := in.(ssa.CallInstruction)
+				if !ok || ci.Common().IsInvoke() || ci.Common().StaticCallee() != nil {
+					return false
+				}
+				if _, isGo := in.(*ssa.Go); isGo {
+					return false
+				}
+				return ci.Common().Value.Type().String() == "context.CancelFunc"
+			}
+			deep := w.deepHit(isCancel)
+			bad := ""
+			nGo := 0
+			for _, gf := range sortedFns(goFns) {
+				hasCopy := false
+				w.eachInstrDeep(gf, func(in ssa.Instruction) {
+					if call, ok := in.(*ssa.Call); ok && call.Call.StaticCallee() != nil && call.Call.StaticCallee().String() == "io.Copy" {
+						hasCopy = true
+					}
+				})
+				if !hasCopy || len(gf.Blocks) == 0 {
+					continue
+				}
+				nGo++
+				// deferred cancel counts: it runs on every exit
+				deferred := false
+				w.eachInstr(gf, func(in ssa.Instruction) {
+					if d, ok := in.(*ssa.Defer); ok && isCancel(d) && d.Block() == gf.Blocks[0] {
+						deferred = true
+					}
+				})
+				if deferred {
+					continue
+				}
+				if ok, trail := mustPassBefore(gf.Blocks[0], deep, func(*ssa.BasicBlock) bool { return false }); !ok {
+					bad = "the copy goroutine " + fname(gf) + " can end without calling the completion context's cancel function (" + strings.Join(trail, "; ") + "): an orderly close of one side is not carried over to the other, the handler never returns"
+				}
+			}
+			if bad == "" && nGo > 0 {
+				c.OK("C16.6", fname(h), "completion signalled", w.pos(h.Pos()), fmt.Sprintf("%d copy goroutine function(s): every exit passes the cancel call", nGo))
+			} else {
+				if bad == "" {
+					bad = "no copy goroutine found"
+				}
+				c.Bad("C16.6", fname(h), "completion signalled", w.pos(h.Pos()), bad)
+			}
 		}
 		c.Anchor("C16.6", "close both")
 		closed := map[string]bool{}
